@@ -366,6 +366,8 @@ def r5_groups_obey(ctx):
         # prefix goes to elected (+=/extend), suffix starts remaining
         pst, sst = astx.stmt_of(pre[0], pm), astx.stmt_of(suf[0], pm)
         pre_to = astx.u(pst.target) if isinstance(pst, ast.AugAssign) else ""
+        if isinstance(pst, ast.Expr) and isinstance(pst.value, ast.Call) and isinstance(pst.value.func, ast.Attribute) and pst.value.func.attr == "extend":
+            pre_to = astx.u(pst.value.func.value)  # L.extend(X) adds X at the end of L, like L += X
         suf_to = astx.u(sst.targets[0]) if isinstance(sst, ast.Assign) else ""
         rets = [r for r in astx.walk_own(f.node) if isinstance(r, ast.Return) and astx.enclosing(r, pm, ast.While)]
         comp = rets[0].value.elts if rets and isinstance(rets[0].value, ast.Tuple) else []
@@ -390,10 +392,16 @@ def r5_groups_obey(ctx):
         ctx.check(bool(good), f, st, "the straddling group is removed from elected and from the count before its resolution is split", str(before),
                   f"statements before the tiebreak are {before}; the tied group must be popped and its size subtracted so that m - count seats remain")
     # remaining continues with the groups after the tied one
-    ext = [n for n in astx.walk_own(f.node) if isinstance(n, ast.AugAssign) and isinstance(n.op, ast.Add)
-           and isinstance(astx.strip_wrappers(n.value), ast.Subscript) and isinstance(astx.strip_wrappers(n.value).slice, ast.Slice)
-           and astx.is_name(astx.strip_wrappers(n.value).value, f.params[0])]
-    k = N.key(astx.strip_wrappers(ext[0].value)) if ext else ""
+    def _added(n):
+        if isinstance(n, ast.AugAssign) and isinstance(n.op, ast.Add):
+            return n.value
+        if isinstance(n, ast.Expr) and isinstance(n.value, ast.Call) and isinstance(n.value.func, ast.Attribute) and n.value.func.attr == "extend" and len(n.value.args) == 1:
+            return n.value.args[0]
+        return None
+    ext = [n for n in astx.walk_own(f.node) if _added(n) is not None
+           and isinstance(astx.strip_wrappers(_added(n)), ast.Subscript) and isinstance(astx.strip_wrappers(_added(n)).slice, ast.Slice)
+           and astx.is_name(astx.strip_wrappers(_added(n)).value, f.params[0])]
+    k = N.key(astx.strip_wrappers(_added(ext[0]))) if ext else ""
     ctx.check(bool(re.fullmatch(rf"{R}\[\w+ \+ 1:\]", k)), f, ext[0] if ext else f.node,
               "remaining continues with the groups after the tied one", k, f"continuation is `{k}`; specified ranking[i + 1:]")
     # no-tie exit: (elected prefix, ranking[i:], None)
